@@ -1,4 +1,4 @@
-* exhaustive, repaired fill (1 key, values {absent,1,2}, 3 batches, 2 clients x 4 ops): all invariants hold
+\* exhaustive, repaired fill (1 key, values {absent,1,2}, 3 batches, 2 clients x 4 ops): all invariants hold
 SPECIFICATION Spec
 CONSTANTS
   Keys = {k1}
